@@ -8,6 +8,7 @@ import (
 	"verifharness/c05"
 	"verifharness/c06"
 	"verifharness/c09"
+	"verifharness/c16"
 	"verifharness/c18"
 	"verifharness/wk"
 )
@@ -16,6 +17,7 @@ var runners = map[string]func(*wk.Job, *wk.Worker) error{
 	"c05": c05.Run,
 	"c06": c06.Run,
 	"c09": c09.Run,
+	"c16": c16.Run,
 	"c18": c18.Run,
 }
 
